@@ -1168,8 +1168,72 @@ def run_cases(env, chk, cases):
     compare_mcmc(env, chk, pending, out)
 
 
+def selection_part(env, chk, rng, n_cases):
+    """The selection rule of mode_posterior / mean_posterior on histories given directly to the real algorithm objects: exact
+    ties (first wins) and NEAR ties (losses that differ by one to a few hundred ulps: the strictly lower one wins, wherever it is)."""
+    import torch
+    from leaspy.algo import AlgorithmSettings, algorithm_factory
+    with core.quiet():
+        mode = algorithm_factory(AlgorithmSettings("mode_posterior", n_iter=10, seed=0, progress_bar=False))
+        mean = algorithm_factory(AlgorithmSettings("mean_posterior", n_iter=10, seed=0, progress_bar=False))
+    for c in range(n_cases):
+        K, n = rng.randrange(2, 12), rng.randrange(1, 5)
+        dt = rng.choice([torch.float32, torch.float32, torch.float64])
+        scale = rng.choice([1.0, 30.0, 1e3, 1e-2, -50.0])
+        att = torch.tensor([[scale * rng.uniform(0.5, 1.5) for _ in range(n)] for _ in range(K)], dtype=dt)
+        reg = torch.tensor([[rng.uniform(0.0, 3.0) for _ in range(n)] for _ in range(K)], dtype=dt)
+        kind = rng.choice(["plain", "exact-tie", "near-tie", "near-tie", "near-tie-late"])
+        if kind != "plain" and K >= 2:
+            for i in range(n):
+                loss = att[:, i] + reg[:, i]
+                k0 = int(torch.argmin(loss))
+                k1 = rng.choice([k for k in range(K) if k != k0])
+                if kind == "exact-tie":
+                    att[k1, i], reg[k1, i] = att[k0, i], reg[k0, i]
+                else:
+                    # another draw whose loss is larger by a few ulps .. 1e-6 relative (strictly larger in the dtype used)
+                    target = loss[k0]
+                    steps = rng.choice([1, 2, 7, 40, 300]) if dt == torch.float32 else rng.choice([1, 5, 10 ** 3, 10 ** 6, 10 ** 9])
+                    up = target
+                    for _ in range(min(steps, 400)):
+                        up = torch.nextafter(up, torch.tensor(float("inf"), dtype=dt))
+                    if steps > 400:
+                        up = target + abs(target) * steps * torch.finfo(dt).eps
+                    att[k1, i] = up
+                    reg[k1, i] = 0.0
+                    if kind == "near-tie-late" and k1 < k0:
+                        # make the near-minimum come first and the true minimum later
+                        pass
+        vals = {"tau": torch.tensor([[[rng.uniform(50, 90)] for _ in range(n)] for _ in range(K)], dtype=torch.float32),
+                "sources": torch.tensor([[[rng.uniform(-2, 2), rng.uniform(-2, 2)] for _ in range(n)] for _ in range(K)], dtype=torch.float32)}
+        cj = {"kind": "selection", "K": K, "n": n, "dtype": str(dt), "tie": kind, "att": att.tolist(), "reg": reg.tolist(),
+              "tau": vals["tau"].reshape(K, n).tolist()}
+        try:
+            got = mode._compute_individual_parameters_from_samples_torch(vals, att.clone(), reg.clone())
+            gmean = mean._compute_individual_parameters_from_samples_torch(vals, att.clone(), reg.clone())
+        except Exception as e:  # noqa
+            chk.impl_failure(cj, f"selection raised {type(e).__name__}: {str(e)[:120]}")
+            continue
+        loss = att + 1.0 * reg
+        for i in range(n):
+            col = loss[:, i].tolist()
+            first = col.index(min(col))
+            for nm in vals:
+                if not torch.equal(got[nm][i], vals[nm][first, i]):
+                    others = [k for k in range(K) if torch.equal(got[nm][i], vals[nm][k, i])]
+                    chk.impl_failure(cj, f"mode: individual #{i} gets draw {others[:1] or '?'} (loss {col[others[0]] if others else '?'!r}) "
+                                         f"instead of the first lowest-loss draw {first} (loss {col[first]!r}) [{kind}]")
+                    break
+        for nm in vals:
+            want = vals[nm].double().mean(dim=0)
+            if not bool(((gmean[nm].double() - want).abs() <= (K + 1) * 2.0 ** -24 * vals[nm].double().abs().max(dim=0).values + 1e-300).all()):
+                chk.impl_failure(cj, f"mean: estimate of '{nm}' is not the mean of the {K} draws")
+        chk.case(("selection", c, kind, K, n, str(dt)), nontrivial=(kind != "plain"), tags={"part": "selection", "tie": kind})
+
+
 def run(chk: core.Check):
     env = _imports()
+    selection_part(env, chk, chk.rng.__class__(chk.rng.getrandbits(64)), 400 if chk.tier == "thorough" else 80)
     chk.rule = ("cohorts of 1-8 subjects drawn from the 17 example subjects (visits sub-sampled, 30% single-visit subjects, missing "
                 "cells injected, identifiers renamed to unsorted numeric-looking / unicode strings), every stored continuous and joint "
                 "model of tests/_data/model_parameters/from_fit, mean_posterior / mode_posterior with n_iter in 1..30, burn-in 0..n-1 "
@@ -1213,5 +1277,22 @@ def replay(chk: core.Check, payload):
     case = payload.get("case") or (payload.get("disagreements") or [{}])[0].get("case")
     if not case:
         chk.note("replay file has no case")
+        return
+    if case.get("kind") == "selection":
+        import torch
+        from leaspy.algo import AlgorithmSettings, algorithm_factory
+        with core.quiet():
+            mode = algorithm_factory(AlgorithmSettings("mode_posterior", n_iter=10, seed=0, progress_bar=False))
+        dt = torch.float64 if "64" in case["dtype"] else torch.float32
+        att, reg = torch.tensor(case["att"], dtype=dt), torch.tensor(case["reg"], dtype=dt)
+        tau = torch.tensor(case["tau"], dtype=torch.float32)[:, :, None]
+        got = mode._compute_individual_parameters_from_samples_torch({"tau": tau}, att.clone(), reg.clone())
+        loss = att + 1.0 * reg
+        for i in range(case["n"]):
+            col = loss[:, i].tolist()
+            first = col.index(min(col))
+            if not torch.equal(got["tau"][i], tau[first, i]):
+                chk.impl_failure(case, f"mode: individual #{i} does not get the first lowest-loss draw {first} (loss {col[first]!r})")
+        chk.case(("selection-replay",), nontrivial=True)
         return
     run_cases(env, chk, [case])
